@@ -94,7 +94,15 @@ fn observe(step: usize, c: &Value, targets: &[String], counters: &[Arc<Counter>]
                 Some(d) => APPENDERS.iter().map(|a| lines(&format!("{}/{}.log", d, a))).collect(),
             };
             let handled_before = HANDLED.load(Ordering::SeqCst);
-            log::log!(target: t.as_str(), level(l), "m");
+            // every other record goes the way the macro goes, but with a module path that names a configured logger:
+            // gating and routing are by target alone (LevelGate.tla), whatever module the call sits in
+            let names: Vec<&str> = c["loggers"].as_array().unwrap().iter().filter_map(|x| x["name"].as_str()).collect();
+            if (ti + l as usize) % 2 == 0 || names.is_empty() {
+                log::log!(target: t.as_str(), level(l), "m");
+            } else if level(l) <= log::max_level() {
+                let decoy = names[(ti + l as usize) / 2 % names.len()];
+                log::logger().log(&log::Record::builder().target(t).level(level(l)).module_path(Some(decoy)).file(Some(decoy)).args(format_args!("m")).build());
+            }
             // with init_config_with_err_handler the first appender fails: the handler given there hears of every failed
             // delivery exactly once
             if counters[0].fail.load(Ordering::SeqCst) {
